@@ -230,12 +230,22 @@ def _check_map(case):
     bad = []
     try:
         p = progs.build_pipeline(prog, cache_type=ctype, **kw)
-        progs.set_log(None)
         for rep in (1, 2):  # the second run hits the cache
+            log: list = []
+            progs.set_log(log)
             try:
                 res = p.map(progs.real_inputs(prog), parallel=False, storage="dict", **progs.map_kwargs(prog))
             except Exception as e:  # noqa: BLE001
                 return [f"map run {rep} with cache raised {type(e).__name__}: {str(e)[:120]}"]
+            finally:
+                progs.set_log(None)
+            # within a run equal argument values are computed once; a repeated run computes nothing (the entries of
+            # these small programs all stay resident: fewer distinct calls than any cache's default capacity)
+            if rep == 1 and len(log) != len(set(log)) and len(set(calls)) < 100:
+                dup = sorted({c for c in log if log.count(c) > 1})[:2]
+                bad.append(f"map run 1 with {ctype} cache executed equal calls more than once: {dup}")
+            if rep == 2 and log and len(set(calls)) < 100:
+                bad.append(f"map run 2 with {ctype} cache re-executed {len(log)} cached calls, e.g. {log[0]}")
             for f in prog["funcs"]:
                 for o in f["outputs"]:
                     got = progs.to_nested(res[o].output)
